@@ -70,6 +70,7 @@ class RSocketClient(RSocketBase):
         logger().debug('%s: connecting', self._log_identifier())
         self._is_closing = False
         self._reset_internals()
+        self._send_setup_frame()  # queued before the sender starts: nothing can precede it
         self._start_tasks()
 
         try:
